@@ -400,7 +400,13 @@ class CallMixin:
             res = fresh_value(st, rty, "ret_" + c.qual.split(".")[-1])
         env2 = dict(env)
         env2["result"] = res
+        # the caller may import only part of a callee's postcondition (fewer hypotheses: sound, and keeps shift-style
+        # clauses that feed matching loops out of proofs that only need the membership-level ones)
+        caller = getattr(ctx, "contract", None)
+        hide = (caller.callee_views.get(c.qual, []) if caller is not None and self.inline_depth == 0 else [])
         for _t, p in c.ensures + [("", x) for x in extra.get("ensures", [])]:
+            if any(h in p for h in hide):
+                continue
             st.assume(self.spec_bool(p, st, ctx, env2, old=pre))
         k(st, res)
 
@@ -648,7 +654,11 @@ class CallMixin:
             if isinstance(x, VStr) and x.s is not None:
                 return k(st, VInt(len(x.s)))
             if isinstance(x, VObj):
-                return self.call_method(st, ctx, x, "__len__", [], {}, k, node)
+                def len_of(st1, cls):
+                    if not cls.startswith("local:") and source.find_method(cls, "__len__") is None:
+                        return self.raise_(st1, ctx, "TypeError", line)      # object of type ... has no len()
+                    return self.call_method(st1, ctx, VObj((cls,), x.t), "__len__", [], {}, k, node)
+                return self.for_classes(st, x, len_of)
             if isinstance(x, VRow):
                 return k(st, VInt(map_row_len(st, x)))
             if isinstance(x, (VInt, VBool, VNone)):
